@@ -9,11 +9,20 @@ import (
 	"sync/atomic"
 )
 
-// ConcJob: kind "conc". Every sub-job is first run alone, one after another
-// (baseline), then all of them are run Rounds times on Goroutines goroutines
-// at once; scheduling points (runtime.Gosched) are injected in ReadToken,
-// in actions and in PushRune from a per-goroutine PRNG. The result lists the
-// runs whose observation differs from the baseline.
+// ConcJob: kind "conc". All sub-jobs are run Rounds times on Goroutines
+// goroutines at once, starting cold (nothing of the generated packages has
+// run in this process before the first round, so lazily initialised shared
+// state is first touched concurrently); only afterwards is every sub-job run
+// alone, one after another, for the baseline its concurrent observations are
+// compared with. Scheduling points (runtime.Gosched) are injected in
+// ReadToken, in actions and in PushRune from a per-goroutine PRNG.
+//
+// Even rounds are "quiet": the harness shares nothing between the goroutines
+// (static partition of the work, per-goroutine result slices and counters), so
+// that it adds no happens-before edges that would hide a race from the race
+// detector. Odd rounds are "counted": shared atomic counters measure how the
+// goroutines actually interleaved (switches between monitored events, jobs in
+// flight) for the evidence.
 type ConcSub struct {
 	Pkg   string   `json:"pkg"`
 	Lex   bool     `json:"lex,omitempty"`
@@ -45,17 +54,20 @@ type ConcRes struct {
 }
 
 type yielder struct {
-	s    uint64
-	gid  int64
-	last *int64
-	sw   *int64
-	ev   *int64
+	s       uint64
+	gid     int64
+	counted bool
+	nev     int64
+	last    *int64
+	sw      *int64
 }
 
 func (y *yielder) yield() {
-	atomic.AddInt64(y.ev, 1)
-	if prev := atomic.SwapInt64(y.last, y.gid); prev != y.gid {
-		atomic.AddInt64(y.sw, 1)
+	y.nev++
+	if y.counted {
+		if prev := atomic.SwapInt64(y.last, y.gid); prev != y.gid {
+			atomic.AddInt64(y.sw, 1)
+		}
 	}
 	y.s += 0x9E3779B97F4A7C15
 	z := y.s
@@ -126,63 +138,86 @@ func runLexY(e *LexEntry, input []byte, yield func()) LexRun {
 
 func runConc(reg map[string]*Entry, j *ConcJob) *ConcRes {
 	res := &ConcRes{PkgsUsed: map[string]int{}}
-	base := make([]string, len(j.Subs))
-	for i := range j.Subs {
-		base[i] = runSub(reg, &j.Subs[i], nil)
-		res.PkgsUsed[j.Subs[i].Pkg]++
+	type obs struct {
+		sub    int
+		digest string
 	}
-	var last, sw, ev int64
+	var last, sw int64
 	var inflight, maxIn int64
-	var mu sync.Mutex
+	var all []obs
 	patterns := map[string]bool{}
+	n := len(j.Subs)
 	for round := 0; round < j.Rounds; round++ {
-		var wg sync.WaitGroup
-		work := make(chan int, len(j.Subs))
-		for i := range j.Subs {
-			work <- (i*7 + round*13) % len(j.Subs)
+		counted := round%2 == 1
+		// which jobs run side by side changes from round to round
+		perm := make([]int, n)
+		for i := range perm {
+			perm[i] = i
 		}
-		close(work)
-		var order []int64
-		var omu sync.Mutex
+		ps := j.Seed*31 + uint64(round)*0x9E3779B97F4A7C15
+		for i := n - 1; i > 0; i-- {
+			ps = ps*6364136223846793005 + 1442695040888963407
+			k := int((ps >> 33) % uint64(i+1))
+			perm[i], perm[k] = perm[k], perm[i]
+		}
+		var wg sync.WaitGroup
+		outs := make([][]obs, j.Goroutines)
+		evs := make([]int64, j.Goroutines)
 		sw0 := atomic.LoadInt64(&sw)
+		start := make(chan struct{})
 		for g := 0; g < j.Goroutines; g++ {
 			wg.Add(1)
 			go func(g int) {
 				defer wg.Done()
-				y := &yielder{s: j.Seed + uint64(g)*1000003 + uint64(round)*7919, gid: int64(g + 1), last: &last, sw: &sw, ev: &ev}
-				for i := range work {
-					n := atomic.AddInt64(&inflight, 1)
-					for {
-						m := atomic.LoadInt64(&maxIn)
-						if n <= m || atomic.CompareAndSwapInt64(&maxIn, m, n) {
-							break
+				y := &yielder{s: j.Seed + uint64(g)*1000003 + uint64(round)*7919, gid: int64(g + 1), counted: counted, last: &last, sw: &sw}
+				<-start
+				// static partition of this round's permutation
+				for k := g; k < n; k += j.Goroutines {
+					i := perm[k]
+					if counted {
+						m := atomic.AddInt64(&inflight, 1)
+						for {
+							cur := atomic.LoadInt64(&maxIn)
+							if m <= cur || atomic.CompareAndSwapInt64(&maxIn, cur, m) {
+								break
+							}
 						}
 					}
 					got := runSub(reg, &j.Subs[i], y)
-					atomic.AddInt64(&inflight, -1)
-					omu.Lock()
-					order = append(order, int64(i))
-					omu.Unlock()
-					if got != base[i] {
-						mu.Lock()
-						if len(res.Mismatches) < 20 {
-							res.Mismatches = append(res.Mismatches, ConcMismatch{Sub: i, Baseline: base[i], Observed: got})
-						}
-						mu.Unlock()
+					if counted {
+						atomic.AddInt64(&inflight, -1)
 					}
-					mu.Lock()
-					res.Runs++
-					mu.Unlock()
+					outs[g] = append(outs[g], obs{i, got})
 				}
+				evs[g] = y.nev
 			}(g)
 		}
+		close(start)
 		wg.Wait()
-		// signature of this round's interleaving: completion order + number of switches
-		patterns[fmt.Sprint(order, atomic.LoadInt64(&sw)-sw0)] = true
+		sig := []int64{atomic.LoadInt64(&sw) - sw0}
+		for g := range outs {
+			all = append(all, outs[g]...)
+			res.Events += evs[g]
+			res.Runs += len(outs[g])
+			sig = append(sig, evs[g])
+		}
+		if counted {
+			patterns[fmt.Sprint(sig)] = true
+		}
+	}
+	// baseline, after the concurrent phase
+	base := make([]string, n)
+	for i := range j.Subs {
+		base[i] = runSub(reg, &j.Subs[i], nil)
+		res.PkgsUsed[j.Subs[i].Pkg]++
+	}
+	for _, o := range all {
+		if o.digest != base[o.sub] && len(res.Mismatches) < 20 {
+			res.Mismatches = append(res.Mismatches, ConcMismatch{Sub: o.sub, Baseline: base[o.sub], Observed: o.digest})
+		}
 	}
 	res.MaxInFlight = int(maxIn)
 	res.Switches = sw
-	res.Events = ev
 	res.Patterns = len(patterns)
 	return res
 }
